@@ -14,6 +14,7 @@ ASSUMPTIONS = [
     "state by replaying the history (quick, thorough), every pair split across a dispatch and every ordered triple on the "
     "smaller shapes (thorough); plus all queries in every earlier state of the main dispatcher (staleness)",
     "reset mode: a first episode of every length with all queries asked in every state, then Dispatcher.reset(), then every history with all queries in every state",
+    "in every state an UnscheduledOperationsObserver created only then (late subscription) must report the same view",
     "collections are compared as sets of operation ids plus 'no duplicates'; order is not demanded",
     "is_ongoing/remaining_duration are not among the queries named by the property and are not checked",
 ]
@@ -253,6 +254,13 @@ def harness(eng, sp):
             if ok:
                 check(eng, q, res, desc, spec, "after-all-queries-in-earlier-states" if mode != "reset"
                       else "after-reset")
+        # (1b) an UnscheduledOperationsObserver created late (after the dispatches) must see the same state
+        d_late = Dispatcher(inst)
+        for op_, m_ in spec.history:
+            d_late.dispatch(D.op_by_id(inst, op_), m_)
+        ok, res = _safe(eng, "observer_view", "late-subscription", lambda: ask("observer_view", d_late, UnscheduledOperationsObserver(d_late), inst, desc, spec))
+        if ok:
+            check(eng, "observer_view", res, desc, spec, "observer-created-after-the-dispatches")
         # (2) ordered sequences on replicas
         if mode == "pairs":
             for q1 in QUERIES:
